@@ -887,6 +887,281 @@ def base_behaviour():
                     fault=repr(fault))
     return problems, terms, summary
 
+
+# ------------------------------------------------------------------------------------------------------
+# LinkOpen / LinkClose on the REAL transports: the real _open_transport()/close() bodies run against recording
+# fakes of the OS-level primitives, with a fault injected at every primitive call in turn
+# ------------------------------------------------------------------------------------------------------
+
+class _World:
+    """the OS as one transport instance sees it: every primitive call is numbered per open()/close() call"""
+
+    def __init__(self):
+        self.resources = []
+        self.begin({})
+
+    def begin(self, plan):
+        self.plan, self.n, self.log, self.fired = dict(plan), 0, [], []
+        self.mark = len(self.resources)
+
+    def tick(self, name):
+        i = self.n
+        self.n += 1
+        self.log.append(name)
+        if self.n > 500:
+            raise RuntimeError("harness: runaway loop on the fake OS primitives")
+        f = self.plan.get(i)
+        if f is not None:
+            self.fired.append([i, name, f])
+            raise _fault_exc(f, name)
+
+
+def _fault_exc(kind, where):
+    import errno
+    import socket
+    msg = "injected %s at %s" % (kind, where)
+    if kind == "timeout":
+        return socket.timeout(msg)
+    if kind == "refused":
+        return ConnectionRefusedError(errno.ECONNREFUSED, msg)
+    if kind == "unreachable":
+        return OSError(errno.EHOSTUNREACH, msg)
+    if kind == "gaierror":
+        return socket.gaierror(socket.EAI_NONAME, msg)
+    if kind == "serialexception":
+        import serial
+        return serial.SerialException(msg)
+    if kind == "vxi11exception":
+        import vxi11
+        return vxi11.vxi11.Vxi11Exception(note=msg)
+    if kind == "usberror":
+        import usb.core
+        return usb.core.USBError(msg, errno=errno.EIO)
+    if kind == "usbtmcexception":
+        from qmi.core import usbtmc
+        return usbtmc.UsbtmcException(msg, "open")
+    return OSError(errno.EIO, msg)
+
+
+class _Res:
+    """one OS-level resource (socket, serial port, VXI-11 link, claimed USB interface)"""
+
+    def __init__(self, world, kind, opened_by_ctor, args=()):
+        d = object.__getattribute__(self, "__dict__")
+        d.update(world=world, kind=kind, is_open=False, close_attempted=False, args=repr(args)[:80])
+        world.tick(kind + "()")            # the constructor itself is a primitive and may fail: nothing is created
+        d["is_open"] = bool(opened_by_ctor)
+        world.resources.append(self)
+
+    def open(self, *a, **k):
+        self.world.tick(self.kind + ".open")
+        self.__dict__["is_open"] = True
+
+    def close(self, *a, **k):
+        # like the real ones: the descriptor is gone even when close() reports an error
+        self.__dict__["close_attempted"] = True
+        self.__dict__["is_open"] = False
+        self.world.tick(self.kind + ".close")
+
+    def fileno(self):
+        return 7 if self.is_open else -1
+
+    def __setattr__(self, name, value):
+        self.__dict__[name] = value        # e.g. `instr.timeout = ...`
+
+    def __getattr__(self, name):
+        if name.startswith("__"):
+            raise AttributeError(name)
+
+        def f(*a, **k):
+            self.world.tick("%s.%s" % (self.kind, name))
+            return None
+        return f
+
+
+def _proxy_module(real, **over):
+    import types
+    m = types.ModuleType(real.__name__)
+    m.__dict__.update(real.__dict__)
+    m.__dict__.update(over)
+    return m
+
+
+_FLAGS = {}     # transport class name -> name of its boolean "open" attribute (learnt, not assumed)
+
+
+def _link_specs():
+    """the concrete transports that can be driven offline: (class, constructor, module to patch, name, proxy factory)"""
+    import socket as real_socket
+    from qmi.core import transport as T
+    specs = []
+
+    def sock_proxy(w):
+        def create_connection(address, *a, **k):
+            r = _Res(w, "create_connection", True, (address,))
+            r.__dict__["kind"] = "socket"
+            return r
+        return _proxy_module(real_socket,
+                             socket=lambda *a, **k: _Res(w, "socket", True, a),
+                             create_connection=create_connection,
+                             gethostbyname=lambda h: (w.tick("gethostbyname"), "127.0.0.1")[1],
+                             getaddrinfo=lambda *a, **k: (w.tick("getaddrinfo"), real_socket.getaddrinfo("127.0.0.1", 1))[1])
+    specs.append(("QMI_TcpTransport", lambda: T.QMI_TcpTransport("127.0.0.1", 5025), T, "socket", sock_proxy))
+    specs.append(("QMI_UdpTransport", lambda: T.QMI_UdpTransport("127.0.0.1", 5026), T, "socket", sock_proxy))
+    import serial as real_serial
+    specs.append(("QMI_SerialTransport", lambda: T.QMI_SerialTransport("COM1", 9600), T, "serial",
+                  lambda w: _proxy_module(real_serial, Serial=lambda *a, **k: _Res(w, "Serial", True, a))))
+    import vxi11 as real_vxi11
+    specs.append(("QMI_Vxi11Transport", lambda: T.QMI_Vxi11Transport("127.0.0.1"), T, "vxi11",
+                  lambda w: _proxy_module(real_vxi11, Instrument=lambda *a, **k: _Res(w, "vxi11.Instrument", False, a))))
+    try:
+        from qmi.core import transport_usbtmc_pyusb as P
+        from qmi.core import usbtmc as real_usbtmc
+        specs.append(("QMI_PyUsbTmcTransport", lambda: P.QMI_PyUsbTmcTransport(1, 1, "X"), P, "usbtmc",
+                      lambda w: _proxy_module(real_usbtmc, Instrument=lambda *a, **k: _Res(w, "usbtmc.Instrument", False, a))))
+    except Exception:  # noqa: BLE001
+        pass
+    return specs
+
+
+def _faults_for(primitive):
+    p = primitive.lower()
+    if "gethostbyname" in p or "getaddrinfo" in p:
+        return ["gaierror", "oserror"]
+    if p.endswith(".connect") or p.startswith("create_connection"):
+        return ["timeout", "refused", "unreachable", "gaierror"]
+    if p.startswith("serial"):
+        return ["serialexception", "oserror"]
+    if p.startswith("vxi11"):
+        return ["vxi11exception", "oserror"]
+    if p.startswith("usbtmc"):
+        return ["usbtmcexception", "usberror", "oserror"]
+    return ["oserror"]
+
+
+def link_scenario(spec, which, plan):
+    """fresh transport of the class; [clean open();] the faulted call; then retry / tear down.  -> list of steps"""
+    name, ctor, mod, attr, proxy = spec
+    if name not in _FLAGS and (which != "close" or plan):
+        link_scenario(spec, "close", {})        # a clean open/close first: learns which attribute is the open flag
+    w = _World()
+    real = getattr(mod, attr)
+    setattr(mod, attr, proxy(w))
+    try:
+        t = ctor()
+        flag_attr = [_FLAGS.get(name)]
+
+        def marked():
+            if flag_attr[0] is None:
+                return None
+            return bool(vars(t).get(flag_attr[0]))
+
+        def call(m, pl):
+            pre_open = [r for r in w.resources if r.is_open]
+            pre_marked = marked()
+            before = {k: v for k, v in vars(t).items() if isinstance(v, bool)}
+            w.begin(pl)
+            try:
+                getattr(t, m)()
+                out, exc = "N", None
+            except Exception as e:  # noqa: BLE001
+                out, exc = "X", type(e).__name__
+            if flag_attr[0] is None and m == "open" and out == "N":
+                flips = [k for k, v in vars(t).items() if isinstance(v, bool) and before.get(k) is False and v is True]
+                if len(flips) == 1:
+                    flag_attr[0] = _FLAGS[name] = flips[0]
+            created = w.resources[w.mark:]
+            return {"call": m, "plan": {str(k): v for k, v in pl.items()}, "out": out, "exc": exc,
+                    "pre_marked": pre_marked, "pre_held": len(pre_open), "marked": marked(),
+                    "held": len([r for r in w.resources if r.is_open]),
+                    "created": len(created), "created_still_open": len([r for r in created if r.is_open]),
+                    "log": list(w.log[:20]), "fired": list(w.fired)}
+        steps = []
+        if which == "open":
+            steps.append(call("open", plan))
+            if steps[-1]["pre_marked"] is None:
+                steps[-1]["pre_marked"] = False
+            steps.append(call("open", {}))    # retry
+            steps.append(call("close", {}))
+            steps.append(call("close", {}))   # refused
+        else:
+            steps.append(call("open", {}))
+            steps[-1]["pre_marked"] = False
+            steps.append(call("close", plan))
+            steps.append(call("close", {}))   # refused
+            steps.append(call("open", {}))
+            steps.append(call("close", {}))
+        return steps
+    finally:
+        setattr(mod, attr, real)
+
+
+def link_oracle(st):
+    """the contract of LinkOpen / LinkClose on one observed call of a real transport -> list of (kind, text)"""
+    bad = []
+    if st["pre_marked"] is None or bool(st["pre_marked"]) != (st["pre_held"] > 0):
+        return bad          # started from a state that was already reported
+    if st["call"] == "open":
+        if st["pre_marked"]:
+            if st["out"] != "X" or st["created"] or not st["marked"] or st["held"] != st["pre_held"]:
+                bad.append(("open-on-open-not-refused", "open() on an open transport: outcome %s, %d resource(s) created"
+                            % (st["out"], st["created"])))
+        elif st["out"] == "N":
+            if not st["marked"] or st["held"] != 1:
+                bad.append(("open-success-wrong-state", "successful open(): marked open=%s, %d OS resource(s) held "
+                            "(exactly one link expected)" % (st["marked"], st["held"])))
+        else:
+            if st["held"]:
+                bad.append(("open-fault-leaves-resource-open", "open() raises %s and the transport reads closed, but %d OS "
+                            "resource(s) created by it are still open (link held)" % (st["exc"], st["held"])))
+            if st["marked"]:
+                bad.append(("open-fault-leaves-marked-open", "open() raises %s but the transport is marked open" % st["exc"]))
+            if not st["fired"]:
+                bad.append(("open-fails-without-fault", "fault-free open() raises %s" % st["exc"]))
+    else:
+        if not st["pre_marked"]:
+            if st["out"] != "X" or st["marked"] or st["held"]:
+                bad.append(("close-on-closed-not-refused", "close() on a closed transport: outcome %s" % st["out"]))
+        else:
+            if st["held"]:
+                bad.append(("close-leaves-resource-open", "close() %s but %d OS resource(s) are still open" % (
+                    "raises %s" % st["exc"] if st["out"] == "X" else "returns", st["held"])))
+            if st["marked"]:
+                bad.append(("close-leaves-marked-open", "close() %s but the transport is still marked open" % (
+                    "raises %s" % st["exc"] if st["out"] == "X" else "returns")))
+            if st["out"] == "X" and not st["fired"]:
+                bad.append(("close-fails-without-fault", "fault-free close() raises %s" % st["exc"]))
+    return bad
+
+
+def link_term(st, k):
+    """the observed call as a case of the model's primitive"""
+    if st["pre_marked"] is None or bool(st["pre_marked"]) != (st["pre_held"] > 0):
+        return None
+    prim = "LinkOpen %d" % k if st["call"] == "open" else "LinkClose %d" % k
+    return "(%s, ob false %s 0, %s, ob false %s %d)" % (
+        prim, common.cbool(st["pre_held"] > 0), "Normal" if st["out"] == "N" else "Exc",
+        common.cbool(st["held"] > 0 or bool(st["marked"])),
+        st["created_still_open"] if st["call"] == "open" else 0)
+
+
+def link_establishment():
+    """-> (scenarios [(spec name, which, plan, steps)], summary)"""
+    out, summary = [], {"classes": {}, "not_tied": ["QMI_VisaUsbTmcTransport / QMI_VisaGpibTransport (pyvisa, Windows-only)",
+                                                   "qmi.core.usbtmc.Instrument itself (the USB layer below QMI_PyUsbTmcTransport)"]}
+    for spec in _link_specs():
+        clean = link_scenario(spec, "close", {})
+        out.append((spec[0], "close", {}, clean))
+        open_log, close_log = clean[0]["log"], clean[1]["log"]
+        n = 0
+        for which, log in (("open", open_log), ("close", close_log)):
+            for k, prim in enumerate(log):
+                for f in _faults_for(prim):
+                    out.append((spec[0], which, {k: f}, link_scenario(spec, which, {k: f})))
+                    n += 1
+        summary["classes"][spec[0]] = {"open_primitives": open_log, "close_primitives": close_log, "fault_scenarios": n}
+    return out, summary
+
 # ------------------------------------------------------------------------------------------------------
 # the property oracle on the implementation's observations (independent of the Coq model)
 # ------------------------------------------------------------------------------------------------------
@@ -1094,6 +1369,11 @@ def run(ck):
         "fake transport = subclass of the real QMI_Transport (real open/close/_check_is_open); only the OS resource is "
         "replaced; a failing close leaves the transport marked closed, as the five real transports do (checked by AST)",
         "stub context unittest.mock.MagicMock(spec=QMI_Context), as in the repository's own driver tests",
+        "LinkOpen/LinkClose are tied to the REAL _open_transport()/close() of QMI_TcpTransport, QMI_UdpTransport, "
+        "QMI_SerialTransport, QMI_Vxi11Transport and QMI_PyUsbTmcTransport run on recording fakes of the OS primitives "
+        "(socket.socket/create_connection/gethostbyname, serial.Serial, vxi11.Instrument, qmi.core.usbtmc.Instrument) with "
+        "a fault at every primitive call; NOT tied: the pyvisa transports (Windows-only) and the USB layer inside "
+        "qmi.core.usbtmc.Instrument",
         "the model's primitives (CheckOpen/CheckClosed/SetOpen/SetClosed, LinkOpen/LinkClose) are checked on every run "
         "against the real QMI_Instrument and QMI_Transport (+ every transport subclass) for every flag value and "
         "hook/resource failing or not: outcome, exception class, resulting flag, hook calls, nothing else changed",
@@ -1138,6 +1418,40 @@ def run(ck):
                   found_input="broken" not in detail)
     for _ in bterms:
         ck.count("base-primitive-case")
+    # LinkOpen / LinkClose on the real link-establishment code of every concrete transport that runs offline
+    lterms, lmetas = [], []
+    logging.disable(logging.CRITICAL)
+    try:
+        lsc, lsum = link_establishment()
+    except Exception as e:  # noqa: BLE001
+        lsc, lsum = [], {"error": "%s: %s" % (type(e).__name__, e)}
+        ck.report("tie:link-establishment:harness", "the real transports could not be driven on the fake OS primitives "
+                  "(broken tie): %s: %s" % (type(e).__name__, e), {"broken": "c19.link_establishment", "error": repr(e)},
+                  found_input=False)
+    finally:
+        logging.disable(logging.NOTSET)
+    ck.coverage["link_establishment"] = lsum
+
+    def lkey(name, st, kind):
+        f = st["fired"][0] if st["fired"] else [0, "no-fault", "none"]
+        return "%s:%s:%s:%s" % (name, kind, f[1], f[2])
+    for name, which, plan, steps in lsc:
+        ck.count("link-establishment:%s:%s" % (which, "+".join(sorted(plan.values())) or "no-fault"))
+        for i, st in enumerate(steps):
+            ck.note_case((name, which, sorted(plan.items()), i), bool(st["fired"]) or i > 0)
+            why = link_oracle(st)
+            t_ = link_term(st, st["fired"][0][0] if st["fired"] else 0)
+            if t_ is not None and not why:
+                lterms.append(t_)
+                lmetas.append((name, which, plan, steps, i))
+            for kind, text in why:
+                ck.report(lkey(name, st, kind), "%s (real %s on recording fakes of the OS primitives; primitive calls %s; fault %s)"
+                          % (name + ": " + text, "_open_transport()" if st["call"] == "open" else "close()", st["log"],
+                             st["fired"] or "none"),
+                          {"phase": "link-establishment", "cls": name, "which": which, "plan": {str(k): v for k, v in plan.items()},
+                           "failing_step": i, "observed_steps": steps})
+            if why:
+                break       # later steps of this scenario start from the state just reported
     classes = res["classes"]
     dyn_only = [x["entry"] for x in res["not_covered"] if "entry" in x]   # untranslatable: oracle only
     not_covered = [{"class": s["class"], "config": s.get("config"), "part": "static+dynamic", "reason": s["reason"]}
@@ -1345,6 +1659,16 @@ def run(ck):
                       "of the model's primitive: %s" % bterms[idx], {"phase": "base-behaviour", "case": bterms[idx]})
         for t_ in bterms:
             ck.note_case(("base", t_), True)
+    if lterms:
+        for idx in ck.run_model("C19.Corr", "check_case", lterms, "case"):
+            name, which, plan, steps, i = lmetas[idx]
+            st = steps[i]
+            ck.report(lkey(name, st, "not-an-execution-of-" + ("LinkOpen" if st["call"] == "open" else "LinkClose")),
+                      "%s.%s() observed on the fake OS primitives is not an execution of the model's primitive: %s" % (
+                          name, st["call"], lterms[idx]),
+                      {"phase": "link-establishment", "cls": name, "which": which, "plan": {str(k): v for k, v in plan.items()},
+                       "failing_step": i, "observed_steps": steps, "broken": "correspondence C19.Corr.check_case"},
+                      found_input=False)
     bad = ck.run_model(CORR, "check_case", terms, "case", shard=300)
     ck.coverage["correspondence_disagreements"] = len(bad)
     seen = set()
@@ -1380,6 +1704,24 @@ def replay(rep):
         return 1
     import logging
     logging.disable(logging.CRITICAL)
+    if c["phase"] == "link-establishment":
+        spec = next((x for x in _link_specs() if x[0] == c["cls"]), None)
+        if spec is None:
+            print("transport class %s cannot be driven any more" % c["cls"])
+            return 1
+        steps = link_scenario(spec, c["which"], {int(k): v for k, v in c["plan"].items()})
+        rc = 0
+        print("real %s on recording fakes of the OS primitives; faulted call: %s(), fault plan %s" % (c["cls"], c["which"], c["plan"]))
+        for st in steps:
+            why = link_oracle(st)
+            print("  %-5s -> %s%s  marked open=%s  OS resources held=%d (created by this call: %d, still open: %d)  primitives=%s%s" % (
+                st["call"], "returns" if st["out"] == "N" else "raises ", "" if st["out"] == "N" else st["exc"], st["marked"],
+                st["held"], st["created"], st["created_still_open"], st["log"], "   <-- PROPERTY FAILS: " + why[0][1] if why else ""))
+            if why:
+                rc = 1
+                break
+        print("oracle:", "property FAILS on this scenario" if rc else "property holds on this scenario")
+        return rc
     if c["phase"] == "base-behaviour":
         bprob, bterms, bsum = base_behaviour()
         print("base-class behaviour check:", bsum)
